@@ -80,14 +80,15 @@ Section Rk23.
       else if (L L0_1 * abs O h) <=? (abs O x * L LEPS) then
         inr (mkR StepSizeTooSmall h (s_stats s) x y (s_log s) (s_cb s))
       else
-        let h := if ((x + h - xend) * posneg) >? zero O then xend - x else h in
+        let last := ((x + h - xend) * posneg) >? zero O in
+        let h := if last then xend - x else h in
         let a := kern x y (s_k1 s) h in
         let stats := add_fev (s_stats s) 3 in
         let log := rev_append (at_calls a) (s_log s) in
         let err := at_err a in
         if err <=? one O then
           let stats := add_acc (add_step stats) in
-          let xnew := x + h in
+          let xnew := if last then xend else x + h in      (* the last step lands exactly on xend *)
           let cont := dense y a in
           let '(cbs, fl, ycb) := cb (s_cb s) x xnew (at_ynew a)
                                     (if p_dense P then Some (cont, x, h) else None) in
